@@ -44,7 +44,23 @@ func (eval Evaluator) EvaluateMany(ctIn *rlwe.Ciphertext, linearTransformations 
 
 	ctPreRot := map[int]*rlwe.Element[ringqp.Poly]{}
 
-	for i, lt := range linearTransformations {
+	// Every transformation reads ctIn: one whose receiver is ctIn itself is evaluated last.
+	order := make([]int, 0, len(linearTransformations))
+	inPlace := -1
+	for i := range linearTransformations {
+		if opOut[i] == ctIn && inPlace < 0 {
+			inPlace = i
+			continue
+		}
+		order = append(order, i)
+	}
+	if inPlace >= 0 {
+		order = append(order, inPlace)
+	}
+
+	for _, i := range order {
+
+		lt := linearTransformations[i]
 
 		if lt.N1 == 0 {
 			if err = eval.MultiplyByDiagMatrix(ctIn, lt, BuffDecompQP, opOut[i]); err != nil {
